@@ -129,6 +129,34 @@ func SliceCodec() Codec[[]int] {
 		}}
 }
 
+// SetCodec: the elements are themselves sets (C15: "sets of sets"); token 0 is
+// the nil interface, token t is a fresh set {t/3, 10 + t%3}: the collator ranks
+// sets as sequences, so the lexicographic order is the token order, and two
+// encodings of one token are distinct objects with equal contents.
+func SetCodec(mk func(a, b int) any, read func(v any) []int) Codec[any] {
+	return Codec[any]{"set",
+		func(t int) any {
+			if t == 0 {
+				return nil
+			}
+			return mk(t/3, 10+t%3)
+		},
+		func(v any) int {
+			if v == nil {
+				return 0
+			}
+			var a = read(v)
+			if len(a) != 2 || a[0] < 0 || a[1] < 10 || a[1] > 12 {
+				return Unknown
+			}
+			var t = a[0]*3 + a[1] - 10
+			if t == 0 {
+				return Unknown
+			}
+			return t
+		}}
+}
+
 // PtrCodec: pointer keys.  Token 0 is the nil pointer; tokens 2i-1 and 2i
 // (i >= 1) are two distinct pointers whose pointees are equal (content i), so
 // the keys are distinct for the Go map but structurally equal for a collator.
